@@ -287,15 +287,16 @@ func (w *TimingWheel) moveTask(task baseEntry) {
 		return
 	}
 
-	pos, circle := w.getPositionAndCircle(task.delay)
-	if pos > timer.pos {
-		timer.item.circle = circle
-		timer.item.diff = pos - timer.pos
-	} else if circle > 0 {
-		circle--
-		timer.item.circle = circle
-		timer.item.diff = w.numSlots + pos - timer.pos
+	// 旧槽位距下次被扫描还需 wait 个滴答（1..numSlots），
+	// 任务只有在旧槽位被扫描时才会被重新安置，因此 circle/diff 需相对该时刻计算。
+	steps := int(task.delay / w.interval)
+	wait := (timer.pos-w.tickedPos-1+w.numSlots)%w.numSlots + 1
+	if steps >= wait {
+		remain := steps - wait
+		timer.item.circle = remain / w.numSlots
+		timer.item.diff = remain % w.numSlots
 	} else {
+		pos, _ := w.getPositionAndCircle(task.delay)
 		timer.item.removed = true
 		newItem := &timingEntry{
 			baseEntry: task,
